@@ -159,7 +159,7 @@ PROPS = {
             "worker runner (c15.rs): 3 GiB address-space limit, 6 s per input, largest single allocation request recorded by a tracking global allocator",
         ],
         "assumptions": ["'in proportion': largest allocation request <= 64 x input length + 2 MiB (serde's own 1 MiB cautious reservations and the 64 KiB credential-id buffer are constants), time <= 1 s + 50 us per byte"],
-        "level_text": "PARTIAL. Kernel-checked: regenerated from the sources, every reservation fed from a declared sequence length is capped (<= 4096), list elements are buffered before being judged (input errors propagate), and no slice index / split_at / unreachable! / unchecked from_slice is left in the U2F parsers and the COSE-key converter; on the models: the U2F request parser returns a request or a status word for every byte string and its fields are cut out of the frame, CTAPHID packets shorter than 5 or longer than 64 bytes are refused and a delivered message's payload has exactly the declared length, authenticator data shorter than 37 bytes is refused, an accepted fingerprint is exactly 95 characters. Not proved: anything about ciborium / serde_json / coset / url / idna / nom and the derived glue. For all 18 decoders the stream feeds valid encodings and their mutations (truncation, extension, bit flips, length fields rewritten to huge declared lengths, deep nesting, arbitrary bytes) to the real code in worker processes and checks value-or-error, allocation and time in proportion; on the modelled decoders the outcome class is compared with the model.",
+        "level_text": "PARTIAL. Kernel-checked: regenerated from the sources, every reservation fed from a declared sequence length is capped (<= 4096), list elements are buffered before being judged (input errors propagate), and no slice index / split_at / unreachable! / unchecked from_slice is left in the U2F parsers and the COSE-key converter; on the models: the U2F request parser returns a request or a status word for every byte string and its fields are cut out of the frame, CTAPHID packets shorter than 5 or longer than 64 bytes are refused and a delivered message's payload has exactly the declared length, authenticator data shorter than 37 bytes is refused and the parts of an accepted value hold no more bytes than the input, a CBOR value read by the modelled definite-length reader (items plus payload bytes) is no larger than the bytes it was read from for every input and fuel, base64 output is at most 3/4 of the text, an accepted fingerprint is exactly 95 characters. Not proved: anything about ciborium / serde_json / coset / url / idna / nom and the derived glue. For all 18 decoders the stream feeds valid encodings and their mutations (truncation, extension, bit flips, length fields rewritten to huge declared lengths, deep nesting, arbitrary bytes) to the real code in worker processes and checks value-or-error, allocation and time in proportion; on the modelled decoders the outcome class is compared with the model.",
         "level_note": "Trusted: Lean kernel; axioms propext/Classical.choice/Quot.sound; translator; hand models; worker runner. Fixed defects: HID receiver (3374224), U2F framing (c4bc33d), COSE coordinates (7e90e89), declared-length reservations (6d31839), swallowed element errors (ecc6514).",
         "rule": "per decoder 150 (thorough 1500; U2F x3, HID x2) mutations of 6-9 valid encodings: truncation at a random point, random extension, 1-3 bit flips, a byte replaced by a CBOR head declaring 2^30..2^64 elements (with and without the input ending there), nesting 200 / 5000 / 100000 deep, 3000 nested containers spliced in, arbitrary bytes, adjacent-byte removal; plus the known killers (a1 01 9b 00 00 01 00 00 00 00 00; truncated 2^30-element transports list; U2F frames of 0..11 bytes and all 256 P1 bytes; 7-byte HID init packet; 31-byte COSE coordinates; 100 KB strings for the text decoders).",
     },
